@@ -1,5 +1,5 @@
 open Model
-let entries : (string * (byte list -> byte list)) list = [
+let entries : (String.t * (byte list -> byte list)) list = [
   "omap_model", omap_model_line;
   "omap_spec", omap_spec_line;
   "num_model", num_model_line;
@@ -16,4 +16,7 @@ let entries : (string * (byte list -> byte list)) list = [
   "example_model", example_model_line;
   "enum_model", enum_model_line;
   "schema_scan_model", schema_scan_model_line;
+  "rules_model", rules_model_line;
+  "rules_spec", rules_spec_line;
+  "rules_spec_raw", rules_spec_raw_line;
 ]
